@@ -168,6 +168,9 @@ func c17Exec(in []string) []string {
 	req := &http.Request{Method: method, Header: http.Header{}, ContentLength: int64(proto.UnN(in[7]))}
 	if in[8] != "~" {
 		req.Header["Content-Length"] = []string{proto.UnB(in[8])}
+	} else if req.ContentLength < 0 && (len(data)+len(sched))%2 == 0 {
+		// what net/http hands a server for a chunked request: no length, the transfer coding named
+		req.TransferEncoding = []string{"chunked"}
 	}
 	var orig io.ReadCloser
 	switch in[1] {
